@@ -116,5 +116,33 @@ def stepLength (dz ds z s : Array α) (amax : α) : MErr (α × α) :=
 
 end
 
+/-! ## added in round 3 (C13): `set_identity_scaling` and operation histories on one cone -/
+section
+variable [Add α] [Mul α] [Sub α] [Div α] [Neg α] [OfNat α 0] [OfNat α 1] [LT α] [DecidableLT α]
+  [FloatLike α]
+
+/-- `set_identity_scaling`: `w.fill(1)` (`λ` is left as it is) -/
+def setIdentityScaling (K : Cone α) : Cone α := { K with w := K.w.map (fun _ => 1) }
+
+inductive Op (α : Type) where
+  | update (s z : Array α)
+  | identity
+
+def applyOp (K : Cone α) : Op α → MErr (Cone α)
+  | .update s z => updateScaling K s z
+  | .identity => pure (setIdentityScaling K)
+
+/-- run a history of operations on one cone object; after each: `(w, get_Hs, mul_Hs x)` -/
+def runHistory (K : Cone α) (x : Array α) : List (Op α) → MErr (List (Array α × Array α × Array α))
+  | [] => pure []
+  | op :: rest => do
+    let K' ← applyOp K op
+    let hs ← getHs K' K'.w.size
+    let y ← mulHs K' x
+    let tail ← runHistory K' x rest
+    pure ((K'.w, hs, y) :: tail)
+
+end
+
 end Nonneg
 end Clarabel
